@@ -102,7 +102,7 @@ Proof.
       intros k' _. exact I. }
   destruct HGG as [HGa HGb].
   split; cbn [r_datalog]; [exact LId|].
-  constructor; cbn [r_trackers r_datalog r_notif r_graveyard r_obufs r_groups].
+  constructor; cbn [r_trackers r_datalog r_notif r_graveyard r_obufs r_groups r_cfg].
   - intros k t Hk. rewrite (proj2 (slab_remove_get _ _ _ _ k Rt)) in Hk. destruct (k =? id); [discriminate|].
     apply (ci_trk _ _ CId _ _ Hk).
   - apply (ci_wait _ _ CId).
@@ -111,6 +111,7 @@ Proof.
   - intros k o Hk. rewrite (proj2 (slab_remove_get _ _ _ _ k Ro)) in Hk. destruct (k =? id); [discriminate|].
     apply (ci_infl _ _ CId _ _ Hk).
   - exact HGb.
+  - apply (ci_cfg _ _ CId).
 Qed.
 
 (* ------------------------------------------------------------------ handle_new_connection *)
@@ -160,7 +161,7 @@ Proof.
   match type of H with (if ?b then _ else _) = _ => destruct b end; [discriminate|].
   apply bind_ok in H as (u & _ & H).
   eapply reschedule_cinv; [|exact H]. split; cbn [r_datalog]; [exact LI|].
-  constructor; cbn [r_trackers r_datalog r_notif r_graveyard r_obufs r_groups].
+  constructor; cbn [r_trackers r_datalog r_notif r_graveyard r_obufs r_groups r_cfg].
   - intros k t Hk. destruct (slab_insert_inv _ _ _ _ _ _ It Hk) as [[_ ->] | [_ Hk']]; [exact Htrk|].
     apply (ci_trk _ _ CI _ _ Hk').
   - apply (ci_wait _ _ CI).
@@ -169,6 +170,7 @@ Proof.
   - intros k o Hk. destruct (slab_insert_inv _ _ _ _ _ _ Io Hk) as [[_ ->] | [_ Hk']]; [constructor|].
     apply (ci_infl _ _ CI _ _ Hk').
   - apply rejoin_groups_ok; [exact Htrk|apply (ci_groups _ _ CI)].
+  - apply (ci_cfg _ _ CI).
 Qed.
 
 (* ------------------------------------------------------------------ subscribe / unsubscribe *)
@@ -217,7 +219,7 @@ Proof.
     destruct (extract_group path) as [[g p]|] eqn:Eg.
     + destruct (match subid with Some 0 => true | _ => false end); [inv_ok; split; [exact HI|apply dl_le_refl]|].
       apply bind_ok in H as ([[st1 idx] cu] & H1 & H). apply bind_ok in H as (st2 & H2 & H).
-      destruct (next_native_offset_cinv _ _ _ _ _ HI H1) as (HI1 & L1 & _ & Hcu & Hf).
+      destruct (next_native_offset_cinv _ _ _ _ _ HI H1) as (HI1 & L1 & Hcu & Hf).
       assert (HI2 : CInv st2).
       { eapply prepare_filter_cinv; [exact HI1|exact Hcu| |exact H2].
         intros g0 E0. inversion E0; subst g0. destruct (extract_group_split _ _ _ Eg) as [nm Hs]. eauto. }
@@ -225,7 +227,7 @@ Proof.
       eapply dl_le_trans; [exact L1|]. rewrite <- (prepare_filter_dl _ _ _ _ _ _ _ _ _ H2). exact L3.
     + destruct (match subid with Some 0 => true | _ => false end); [inv_ok; split; [exact HI|apply dl_le_refl]|].
       apply bind_ok in H as ([[st1 idx] cu] & H1 & H). apply bind_ok in H as (st2 & H2 & H).
-      destruct (next_native_offset_cinv _ _ _ _ _ HI H1) as (HI1 & L1 & _ & Hcu & Hf).
+      destruct (next_native_offset_cinv _ _ _ _ _ HI H1) as (HI1 & L1 & Hcu & Hf).
       assert (HI2 : CInv st2).
       { eapply prepare_filter_cinv; [exact HI1|exact Hcu| |exact H2]. intros g0 E0. discriminate. }
       destruct (IH _ _ _ _ _ _ HI2 H) as [HI3 L3]. split; [exact HI3|].
